@@ -210,6 +210,11 @@ func twinsC08(src *choice.Src, w *World, envReads []string) (tw []*World, dims [
 	}
 	{
 		t := w.Clone()
+		t.StrayConfigs = true
+		add("stray-configs-around", t)
+	}
+	{
+		t := w.Clone()
 		t.SlowSeed = seed64(src, "twin.slow") | 1
 		add("latency", t)
 	}
